@@ -395,7 +395,8 @@ fn hex(b: &[u8]) -> String {
 
 /// program that builds `h` zero words, executes `b` (followed by zero filler for push data), then `suffix`
 fn cell_program(b: u8, h: usize, suffix: &[u8]) -> Vec<u8> {
-    let mut p = Asm::default().rep(op::PUSH0, h).op(b);
+    // (code may not start with 0xEF, EIP-3541: a leading JUMPDEST is a no-op)
+    let mut p = if h == 0 && b == 0xef { Asm::default().op(op::JUMPDEST).op(b) } else { Asm::default().rep(op::PUSH0, h).op(b) };
     if (op::PUSH1..=op::PUSH32).contains(&b) {
         p = p.rep(0, (b - op::PUSH1) as usize + 1);
     }
@@ -431,22 +432,17 @@ fn abort_pc(msg: &str) -> Option<usize> {
     digits.parse().ok()
 }
 
-/// linear search of the height after the byte (slow path, only used when a prediction failed)
+/// height after the byte when the prediction failed: one run with more POPs than any stack can hold;
+/// the pc of the POP that underflows gives the height
 fn measure_height(cx: &mut Ctx, seq: u64, b: u8, h: usize, lines: &mut Vec<String>) -> Option<Pred> {
-    let r0 = run_program(cx, seq, &cell_program(b, h, &[op::STOP]), &[], lines)?;
-    if !r0.ok() {
-        return Some(Pred::Ends(r0.code.value()));
+    let prog = cell_program(b, h, &Asm::default().rep(op::POP, SPEC_STACK_LIMIT + 8).op(op::STOP).0);
+    let first_pop = prog.len() - (SPEC_STACK_LIMIT + 8) - 1;
+    let r = run_program(cx, seq, &prog, &[], lines)?;
+    match (r.code.value(), abort_pc(&r.message)) {
+        (STACK_UNDERFLOW, Some(pc)) if pc >= first_pop => Some(Pred::Next(pc - first_pop)),
+        (0, _) => Some(Pred::Next(usize::MAX)),
+        (c, _) => Some(Pred::Ends(c)),
     }
-    for k in 0..=(SPEC_STACK_LIMIT + 2) {
-        let r = run_program(cx, seq, &cell_program(b, h, &Asm::default().rep(op::POP, k + 1).op(op::STOP).0), &[], lines)?;
-        if r.code.value() == STACK_UNDERFLOW {
-            return Some(Pred::Next(k));
-        }
-        if !r.ok() {
-            return Some(Pred::Ends(r.code.value()));
-        }
-    }
-    Some(Pred::Next(usize::MAX))
 }
 
 struct Cell {
@@ -1313,8 +1309,8 @@ fn run_inner(cfg: &RunCfg) -> Report {
         std::thread::sleep(std::time::Duration::from_secs(2));
         let k = CURRENT_CASE.load(Ordering::SeqCst);
         let t0 = CASE_STARTED_MS.load(Ordering::SeqCst);
-        if k != u64::MAX && t0 != 0 && now_ms().saturating_sub(t0) > 120_000 {
-            eprintln!("c18 harness: case {} did not finish within 120 s (no gas natively) — aborting the run", k);
+        if k != u64::MAX && t0 != 0 && now_ms().saturating_sub(t0) > 600_000 {
+            eprintln!("c18 harness: case {} did not finish within 600 s (no gas natively) — aborting the run", k);
             std::process::exit(3);
         }
     });
